@@ -254,6 +254,16 @@ func checkTypeSystem(c *core.Ctx, orderProp bool) {
 		for _, t := range handSchemas {
 			addCase(nil, nil, t)
 		}
+		// small scope: every combination of up to 3 (quick) / 4 (thorough) blocks
+		k := 3
+		if c.Thorough() {
+			k = 4
+		}
+		small := smallTypeSystems(k)
+		for _, t := range small {
+			addCase(nil, nil, t)
+		}
+		c.SetExtra("small_scope_type_systems", len(small))
 	} else {
 		for _, its := range handOrderItems {
 			handItems = its
@@ -305,13 +315,20 @@ func checkTypeSystem(c *core.Ctx, orderProp bool) {
 	}
 }
 
+var handSet map[string]bool
+
+// isHand: hand-written and small-scope cases carry no generator intent (the specification decides them)
 func isHand(sdl string) bool {
-	for _, h := range handSchemas {
-		if strings.TrimSpace(h) == strings.TrimSpace(sdl) {
-			return true
+	if handSet == nil {
+		handSet = map[string]bool{}
+		for _, h := range handSchemas {
+			handSet[strings.TrimSpace(h)] = true
+		}
+		for _, h := range smallTypeSystems(4) {
+			handSet[strings.TrimSpace(h)] = true
 		}
 	}
-	return false
+	return handSet[strings.TrimSpace(sdl)]
 }
 
 func describeSources(ss []*ast.Source) string {
@@ -365,6 +382,64 @@ var handOrderItems = [][]SDLItem{
 	ordItems("extend enum Color { BLUE }", "extend enum Color { GREEN }", "enum Color { RED }", "type Query { c(d: Color = GREEN): Color }", "extend input Filter { c: Color = BLUE }", "extend type Query { f(x: Filter): Int }"),
 	ordItems("extend scalar Date @tag", "scalar Date", "directive @tag repeatable on SCALAR", "extend scalar Date @tag", "type Query { d: Date }"),
 	ordItems("extend type Query { later: Later }", "extend type Later { x: Int }", "extend type Query { u: U }", "extend union U = Later", "extend type Query { first: Int }"),
+}
+
+// smallTypeSystems: every set of at most k definitions / extensions drawn from
+// a pool written so that combinations hit each rule from several sides
+// (duplicate types, missing / wrong-kind references, interface hierarchies
+// with missing or non-covariant fields, transitive interfaces, extensions that
+// add fields, interfaces, members, values or directives, roots), on top of a
+// fixed query root. The specification decides every combination.
+var smallTypePool = []string{
+	"interface I { a: Int }",
+	"interface I { a: Int b(x: Int): Int }",
+	"interface J implements I { a: Int }",
+	"interface J implements I { j: Int }",
+	"type T implements I { a: Int }",
+	"type T implements I { a: Int! b(x: Int, y: Int): Int }",
+	"type T implements I { a: String }",
+	"type T implements J { a: Int }",
+	"type T implements J & I { a: Int j: Int }",
+	"type T { t: U f(i: In): E }",
+	"type V implements I { a: Int b(x: Int!): Int }",
+	"union U = T",
+	"union U = T | I",
+	"union U = T | V",
+	"extend union U = Missing",
+	"extend type T { e: Int }",
+	"extend type T { a: Int }",
+	"extend type T implements I",
+	"extend interface I { c: [T!] }",
+	"input In { x: Int y: In }",
+	"input In { x: T }",
+	"extend input In { z: E = A }",
+	"enum E { A B }",
+	"extend enum E { C }",
+	"extend type Query { t: T i: I u: U }",
+	"schema { query: Query mutation: T }",
+	"extend schema { subscription: V }",
+	"directive @d(x: Int!) repeatable on OBJECT | INTERFACE",
+	"extend type T @d(x: 1) @d(x: 2)",
+	"extend interface I @d",
+}
+
+func smallTypeSystems(k int) []string {
+	var out []string
+	n := len(smallTypePool)
+	var rec func(start int, chosen []string)
+	rec = func(start int, chosen []string) {
+		if len(chosen) > 0 {
+			out = append(out, "type Query { q: Int } "+strings.Join(chosen, " "))
+		}
+		if len(chosen) == k {
+			return
+		}
+		for i := start; i < n; i++ {
+			rec(i+1, append(chosen, smallTypePool[i]))
+		}
+	}
+	rec(0, nil)
+	return out
 }
 
 var handSchemas = []string{
